@@ -599,6 +599,20 @@ func (s *Sim) serveRequest(m *Msg) (stream [][]byte, err error) {
 			return err
 		}
 		stream = append(stream, b)
+		// what a response batch names (heads) and carries (changes) is advertised by the responder
+		tsm := &treechangeproto.TreeSyncMessage{}
+		if tsm.UnmarshalVT(osm.Payload) == nil {
+			if fr := tsm.GetContent().GetFullSyncResponse(); fr != nil {
+				ids := append([]string(nil), fr.Heads...)
+				for _, ch := range fr.Changes {
+					ids = append(ids, ch.Id)
+				}
+				if len(ids) > 0 {
+					s.advertised[m.To] = append(s.advertised[m.To], ids)
+					s.Counters["advertised-in-responses"] += len(ids)
+				}
+			}
+		}
 		return nil
 	}
 	counter, err := rep.Tree.HandleStreamRequest(ctx, rq, noopUpdater{}, send)
